@@ -561,3 +561,70 @@ fn c05_nsec_compose() {
     assert!(buf.len == nm.n + 3 && has(&buf.data, 0, &nm.w[..nm.n]) && has(&buf.data, nm.n, &bm));
     assert!(has(&cb.data, 0, &nm.w[..nm.n]) && has(&cb.data, nm.n, &bm));
 }
+
+// ---------------------- RDATA length under a name-compressing target
+use domain::base::message_builder::StaticCompressor;
+use domain::base::wire::Composer;
+use octseq::builder::OctetsBuilder;
+
+fn len_prefix_under_compressor<const WHICH: usize>() {
+    // message so far: 12 header octets + the name "c." (c symbolic) already written and remembered
+    let c0: u8 = kani::any();
+    let first = [1u8, c0, 0];
+    let mut t: StaticCompressor<FixedBufM<48>> = StaticCompressor::new(FixedBufM { data: [0; 48], len: 0 });
+    t.append_slice(&[0u8; 12]).unwrap();
+    t.append_compressed_name(&Name::from_octets(&first[..]).unwrap()).unwrap();
+    let start = t.as_slice().len();
+    // RDATA name "x.c'." shares the suffix iff c' ~ c
+    let nm = FlatName::any::<1, 1>();
+    let pref: u16 = kani::any();
+    match WHICH {
+        0 => Dname::new(nm.name()).compose_len_rdata(&mut t).unwrap(),
+        1 => Ns::new(nm.name()).compose_len_rdata(&mut t).unwrap(),
+        2 => Cname::new(nm.name()).compose_len_rdata(&mut t).unwrap(),
+        _ => Mx::new(pref, nm.name()).compose_len_rdata(&mut t).unwrap(),
+    }
+    let msg = t.as_slice();
+    let announced = be16(msg, start) as usize;
+    // the length prefix equals the octets actually written behind it
+    assert!(announced == msg.len() - start - 2);
+    if WHICH == 0 {
+        // RFC 6672 2.5: the DNAME target is never compressed
+        assert!(announced == nm.n);
+    }
+    kani::cover!(announced < nm.n + if WHICH == 3 { 2 } else { 0 }, "RDATA name was compressed");
+}
+
+// @funcs: Dname::{compose_rdata,rdlen,compose_len_rdata} under StaticCompressor, compose_prefixed
+// @bound: DNAME whose target x.c' (symbolic octets) may share the suffix with a name already in the message, composed with its length prefix into StaticCompressor<FixedBufM<48>>: prefix = octets written, target uncompressed
+// @covers: optional
+// @tier: thorough
+// @timeout: 7200
+// @mem: 30
+#[kani::proof]
+#[kani::unwind(8)]
+fn c05_len_prefix_under_compressor_dname() {
+    len_prefix_under_compressor::<0>()
+}
+
+// @funcs: Ns/Cname::{compose_rdata,rdlen,compose_len_rdata} under StaticCompressor, compose_prefixed (back-patched length)
+// @bound: as above for NS and CNAME (compressible types): prefix = octets written whether or not the name got compressed
+// @tier: thorough
+// @timeout: 7200
+// @mem: 30
+#[kani::proof]
+#[kani::unwind(8)]
+fn c05_len_prefix_under_compressor_ns() {
+    len_prefix_under_compressor::<1>()
+}
+
+// @funcs: Mx::{compose_rdata,rdlen,compose_len_rdata} under StaticCompressor
+// @bound: as above for MX (preference symbolic)
+// @tier: thorough
+// @timeout: 7200
+// @mem: 30
+#[kani::proof]
+#[kani::unwind(8)]
+fn c05_len_prefix_under_compressor_mx() {
+    len_prefix_under_compressor::<3>()
+}
